@@ -35,6 +35,8 @@ static long g_scale = 1;
 static size_t SZ(long s) { return (size_t)s * (size_t)g_scale; }
 static long US(size_t x) { return (x % (size_t)g_scale) == 0 ? (long)(x / (size_t)g_scale) : -123456; }
 
+static thread_local long t_voff = 0;
+static thread_local int t_variant = 0;
 struct XSet : phosg::LRUSet<int> {
   vector<Ent> fwd() {
     vector<Ent> r;
@@ -61,14 +63,21 @@ struct XSet : phosg::LRUSet<int> {
     return r;
   }
   vector<long> apply(const Op& o) {
-    if (o.op == "insert") return {(long)this->insert((int)o.k, SZ(o.s))};
+    // every other keyed call hands the container a reference to ITS OWN stored key when the key is present
+    const int kk = (int)o.k;
+    const int* kp = &kk;
+    if ((t_variant++ & 2) && (o.op == "insert" || o.op == "erase" || o.op == "change_size" || o.op == "touch")) {
+      auto it = this->items.find(kk);
+      if (it != this->items.end()) kp = &it->first;
+    }
+    if (o.op == "insert") return {(long)this->insert(*kp, SZ(o.s))};
     if (o.op == "emplace") {
       int k = (int)o.k;
       return {(long)this->emplace(std::move(k), SZ(o.s))};
     }
-    if (o.op == "erase") return {(long)this->erase((int)o.k)};
-    if (o.op == "change_size") return {(long)this->change_size((int)o.k, SZ(o.s))};
-    if (o.op == "touch") return {(long)this->touch((int)o.k, (o.s < 0 ? (ssize_t)o.s : (ssize_t)SZ(o.s)))};
+    if (o.op == "erase") return {(long)this->erase(*kp)};
+    if (o.op == "change_size") return {(long)this->change_size(*kp, SZ(o.s))};
+    if (o.op == "touch") return {(long)this->touch(*kp, (o.s < 0 ? (ssize_t)o.s : (ssize_t)SZ(o.s)))};
     if (o.op == "evict") {
       try {
         auto p = this->evict_object();
@@ -99,8 +108,6 @@ struct XSet : phosg::LRUSet<int> {
 // has t_voff added again.  With the shift, stored values coincide with keys, and the copying overload can be handed
 // references INTO the container (a key that is the stored value of the entry being replaced, a stored key, a stored value),
 // as an alias table / union-find root update does.
-static thread_local long t_voff = 0;
-static thread_local int t_variant = 0;
 struct XMap : phosg::LRUMap<int, int> {
   vector<Ent> fwd() {
     vector<Ent> r;
@@ -151,27 +158,33 @@ struct XMap : phosg::LRUMap<int, int> {
       int k = (int)o.k, v = (int)(o.v - t_voff);
       return {(long)this->emplace(std::move(k), std::move(v), SZ(o.s))};
     }
-    if (o.op == "erase") return {(long)this->erase((int)o.k)};
+    const int kk = (int)o.k;
+    const int* kp = &kk;
+    if ((variant & 2) && (o.op == "erase" || o.op == "change_size" || o.op == "touch" || o.op == "at" || o.op == "item_size")) {
+      auto it = this->items.find(kk);
+      if (it != this->items.end()) kp = (it->second.value == kk && (variant & 1)) ? &it->second.value : &it->first;
+    }
+    if (o.op == "erase") return {(long)this->erase(*kp)};
     if (o.op == "at") {
       try {
         if (variant & 1) {
           const XMap* c = this;
-          return {(long)c->at((int)o.k) + t_voff};
+          return {(long)c->at(*kp) + t_voff};
         }
-        return {(long)this->at((int)o.k) + t_voff};
+        return {(long)this->at(*kp) + t_voff};
       } catch (const out_of_range&) {
         return {-1};
       }
     }
     if (o.op == "item_size") {
       try {
-        return {US(this->item_size((int)o.k))};
+        return {US(this->item_size(*kp))};
       } catch (const out_of_range&) {
         return {-1};
       }
     }
-    if (o.op == "change_size") return {(long)this->change_size((int)o.k, SZ(o.s), o.t != 0)};
-    if (o.op == "touch") return {(long)this->touch((int)o.k, (o.s < 0 ? (ssize_t)o.s : (ssize_t)SZ(o.s)))};
+    if (o.op == "change_size") return {(long)this->change_size(*kp, SZ(o.s), o.t != 0)};
+    if (o.op == "touch") return {(long)this->touch(*kp, (o.s < 0 ? (ssize_t)o.s : (ssize_t)SZ(o.s)))};
     if (o.op == "evict") {
       try {
         auto p = this->evict_object();
